@@ -38,6 +38,9 @@ TRUSTED_BASE = [
 READ_ONLY = r"\.(chk|stats|obs|export|hashes|jacc|view)\b"
 COUNTERS = ["count", "added", "total", "unique", "subcounts", "estimate", "cfpr", "setbits", "nblooms"]
 LOADS = r"\.(load|loadraw|reopen|loadmem|export)\b"
+# facets that are part of a structure's state (as opposed to the value a call returns)
+STATE = ["bits", "cells", "count", "bins", "total", "table", "subbits", "subcounts", "added", "nblooms", "file", "meta", "rems", "cap", "unique", "geom", "est", "fpr32", "q", "size", "raw"]
+MINLIKE = r" k=(min|hh|st)\b"
 
 PROPS = {
     "C01": {
@@ -46,12 +49,12 @@ PROPS = {
         "assumptions": ["hash strategies are arbitrary functions in the theorems; md5/sha256/custom strategies reach the model as supplied hash lists", "export/load and reopen steps of the property are carried by C05/C11 theorems plus the tie"],
     },
     "C02": {
-        "suites": [("cms", [(r"^cm\.", ["ret", "bins", "total"])])],
+        "suites": [("cms", [(r"^cm\..*" + MINLIKE, ["ret"]), (r"^cm\.", ["bins", "total"])])],
         "search": True,
         "assumptions": ["claimed for legitimate removals and totals ≤ 2^31-1 (no clamp fires), as the property states"],
     },
     "C03": {
-        "suites": [("cuckoo", ["ret", "table", "count", "cap", "oracle_left", "unique"])],
+        "suites": [("cuckoo", [(r"^ck\.", ["fps", "cap", "oracle_left"]), (r"^ck\.(chk|add|rem|expand)\b", ["ret"])])],
         "search": True,
         "assumptions": ["the filter's random draws are an arbitrary oracle list in the theorems; the tie records the real draws by wrapping random.choice/randint in the harness process", "G = hash(str(fingerprint)) is an arbitrary function in the theorems"],
     },
@@ -97,7 +100,7 @@ PROPS = {
         ],
     },
     "C12": {
-        "suites": [("bloom", [(r"\.(union|add)\b", ["ret", "bits"])]), ("cbf", [(r"\.(union|add)\b", ["ret", "cells"])]), ("cms", [(r"\.(join|add)\b", ["ret", "bins", "total"])]), ("ondisk", [(r"^(bf\.union|od\.view)", ["ret", "bits"])])],
+        "suites": [("bloom", [(r"\.(union|add)\b", ["ret", "bits"])]), ("cbf", [(r"\.(union|add)\b", ["ret", "cells"])]), ("cms", [(r"\.(join|add)\b", ["bins", "total"]), (r"\.join\b", ["ret"])]), ("ondisk", [(r"^(bf\.union|od\.view)", ["ret", "bits"])])],
         "search": True,
         "assumptions": ["claimed for unsaturated states, as the property states"],
     },
@@ -111,9 +114,9 @@ PROPS = {
         "search": True,
         "assumptions": ["float statistics: formula identity over the reals + bit-for-bit correspondence of the Float instance; IEEE rounding not verified", "quotient filter: count = number of stored hashes follows from C04 (partial, see there)"],
     },
-    "C15": {"suites": [("cuckoo", ["table", "cap", "geom"])], "search": True, "assumptions": ["all oracles, arbitrary G; loading an export preserves the invariant by the C05 round trip"]},
-    "C16": {"suites": [("cms", [(r"^cm\.", ["ret", "bins", "total"])]), ("cbf", [(r"^cb\.", ["ret", "cells", "count"])])], "search": True, "assumptions": ["amounts are ints ≥ 1 (unbounded)"]},
-    "C17": {"suites": [("cms", [(r"^cm\.", ["table", "ret"])])], "search": True, "assumptions": ["heavy hitters: adds only with n ≥ 1 (remove is not supported by the class)"]},
+    "C15": {"suites": [("cuckoo", ["fps", "zeros", "cap", "geom"])], "search": True, "assumptions": ["all oracles, arbitrary G; loading an export preserves the invariant by the C05 round trip"]},
+    "C16": {"suites": [("cms", [(r"^cm\..*" + MINLIKE, ["ret"]), (r"^cm\.", ["bins", "total"])]), ("cbf", [(r"^cb\.", ["ret", "cells", "count"])])], "search": True, "assumptions": ["amounts are ints ≥ 1 (unbounded)"]},
+    "C17": {"suites": [("cms", [(r"^cm\..* k=(hh|st)\b", ["table", "ret"]), (r"^cm\.", ["table"])])], "search": True, "assumptions": ["heavy hitters: adds only with n ≥ 1 (remove is not supported by the class)"]},
     "C18": {
         "suites": [("hashes", None)],
         "search": True,
@@ -123,7 +126,7 @@ PROPS = {
         ],
     },
     "C19": {
-        "suites": [(s, [(READ_ONLY, None), (r"\.clear\b", None)]) for s in ("bloom", "cbf", "expanding", "cms", "cuckoo", "qf", "ondisk")],
+        "suites": [(s, [(READ_ONLY, STATE), (r"\.clear\b", STATE + ["ret"])]) for s in ("bloom", "cbf", "expanding", "cms", "cuckoo", "qf", "ondisk")],
         "search": True,
         "assumptions": ["query purity is the function type in the models and therefore decided by the tie and the search; clear = fresh structure and the no-op of the on-disk count rewrite are theorems"],
     },
